@@ -28,7 +28,7 @@ def snapshot(d):
     return out
 
 def strace_run(d, strategy, fail=False, kill_at=None):
-    drv = os.path.join(BUILD, "drv")
+    drv = os.path.join(BUILD, "drv-c13")
     tr = os.path.join(d, "run.trace")
     cmd = ["strace", "-f", "-o", tr, "-e", "trace=" + SYSCALLS]
     if kill_at is not None:   # (syscall name, ordinal among calls of that name in the thread): strace counts per syscall
